@@ -276,7 +276,11 @@ impl Commune {
     self.M.clone()
   }
 
-  fn verify(&self, J: &[u8; MAC_LENGTH]) -> Result<(), Box<dyn Error>> {
+  fn verify(
+    &self,
+    J: &[u8; MAC_LENGTH],
+    K: &[u8],
+  ) -> Result<(), Box<dyn Error>> {
     let mut transcript = self
       .clone()
       .T
@@ -286,9 +290,17 @@ impl Commune {
     transcript.ad(&self.M, false);
     transcript.key(&self.R, false);
 
-    transcript
-      .recv_mac(J)
-      .map_err(|_| "Mac validation failed".into())
+    transcript.recv_mac(J).map_err(|_| "Mac validation failed")?;
+
+    // K is derived from the same transcript. Shares that interpolate to
+    // any other key were altered, even if M and R are empty and so the
+    // MAC alone cannot tell.
+    let mut expected = [0u8; 16];
+    transcript.prf(&mut expected, false);
+    if expected[..] != K[..] {
+      return Err("Key validation failed".into());
+    }
+    Ok(())
   }
 }
 
@@ -329,7 +341,7 @@ where
     T: None,
   };
 
-  c.verify(&s.J.clone())?;
+  c.verify(&s.J.clone(), &K)?;
   Ok(c)
 }
 
